@@ -69,15 +69,23 @@ def install_contracts(R):
 
     def linspace_is_dense_relabelling(x, result):
         R.count("contract_to_linspace")
-        idx, keys = result
-        keys = np.asarray(keys)
-        xa = np.asarray(x)
-        return bool(
-            idx.shape == xa.shape
-            and np.array_equal(keys[idx], xa)
-            and len(set(keys.tolist())) == len(keys)
-            and (idx.size == 0 or set(np.unique(idx).tolist()) == set(range(len(keys))))
-        )
+        try:
+            idx, keys = result
+            keys = np.asarray(keys)
+            xa = np.asarray(x)
+            idx = np.asarray(idx)
+            if idx.dtype.kind not in "iu":
+                # codes handed back in a non-integer container (e.g. the fixed-width string dtype of the labels, where
+                # '10' is cut to '1'): only acceptable when they convert to integers without loss
+                idx = idx.astype(np.int64)
+            return bool(
+                idx.shape == xa.shape
+                and np.array_equal(keys[idx], xa)
+                and len(set(keys.tolist())) == len(keys)
+                and (idx.size == 0 or set(np.unique(idx).tolist()) == set(range(len(keys))))
+            )
+        except Exception:
+            return False
 
     gci = icontract.ensure(window_is_exact, error=lambda time, calibration_range, groups, result: ContractBroken(
         f"get_calibration_indices({calibration_range}) -> {np.asarray(result).tolist()} is not the set begin <= t <= end"))(U.get_calibration_indices)
@@ -140,6 +148,8 @@ def spell(rng, ids, how):
         names = np.array([str(v) for v in rng.permutation(np.arange(1, k + 1) * int(rng.integers(1, 13)))])
     elif how == "float":
         names = rng.permutation(np.arange(k)) * 0.5 + 0.25
+    elif how == "char1":  # one-character labels: narrower than the decimal width of the codes once k > 10
+        names = np.array(rng.permutation(list("0123456789abcdefghijklmnopqrstuvwxyzABCDEFGHIJKLMNOPQRSTUVWXYZ"))[:k])
     else:
         pool = ["jan", "feb", "mar", "apr", "may", "jun", "jul", "aug", "sep", "oct", "nov", "dec"] + [f"d{j:02d}" for j in range(40)]
         names = np.array(rng.permutation(pool)[:k])
@@ -188,7 +198,7 @@ def run_case(R, rng, it):
         k = int(rng.choice([1, 2, 3, 4, 6, 12, 36]))
         k = min(k, n // 2)
         ids = gen_labels(rng, n, k, ["interleaved", "blocked", "random"][int(rng.integers(0, 3))])
-        labels = spell(rng, ids, ["int", "str_num", "float", "names"][int(rng.integers(0, 4))])
+        labels = spell(rng, ids, ["int", "str_num", "float", "names", "char1"][int(rng.integers(0, 5))])
     kw = {}
 
     def spell_date(v):
@@ -306,7 +316,7 @@ def helper_direct(R, rng):
             R.count("helper_direct_calls", 2)
         except ContractBroken as ex:
             R.violation("C09:helper-contract", str(ex)[:300], {"time": tix.values, "begin": str(b), "end": str(e)})
-    for labels in (rng.integers(-5, 5, 12), np.array(["10", "2", "1", "10", "b", "a"]), rng.permutation(np.arange(7) * 0.5), np.array([["x", "y"], ["y", "z"]])):
+    for labels in (rng.integers(-5, 5, 12), np.array(["10", "2", "1", "10", "b", "a"]), np.array(list("abcdefghijklm")), np.array(list("zyxwvutsrqponmlkjihgfedcba")[: int(rng.integers(11, 27))]), rng.permutation(np.arange(7) * 0.5), np.array([["x", "y"], ["y", "z"]])):
         try:
             acc.to_linspace(np.asarray(labels))
             R.count("helper_direct_calls")
